@@ -8,7 +8,7 @@ vars == <<s, steps, next>>
 K == {[id |-> 1, change |-> 0, acct |-> 0], [id |-> 2, change |-> 0, acct |-> 1], [id |-> 3, change |-> 1, acct |-> 0]}
 Reports == {[t |-> 1, n |-> 0, v |-> 5, key |-> 1, conf |-> 1], [t |-> 1, n |-> 1, v |-> 7, key |-> 2, conf |-> 0],
             [t |-> 2, n |-> 0, v |-> 5, key |-> 1, conf |-> 3]}
-Qm == [recips |-> <<[id |-> 0, v |-> 4]>>, fee |-> -1, minconf |-> 0, inkeys |-> {}, sweep |-> FALSE, feemin |-> 0, feemax |-> 0, nexplicit |-> 0, explicit |-> {}, above |-> -1, acct |-> 0]
+Qm == [recips |-> <<[id |-> 0, v |-> 4]>>, fee |-> -1, minconf |-> 0, inkeys |-> {}, sweep |-> FALSE, feemin |-> 0, feemax |-> 0, nexplicit |-> 0, explicit |-> {}, above |-> -1, acct |-> 0, named |-> FALSE]
 Init == s = [InitS EXCEPT !.keys = K] /\ steps = 0 /\ next = 10
 Receive == \E r \in Reports : s' = UtxosUpdate(s, <<r>>, FALSE) /\ UNCHANGED next
 Update == \E R \in SUBSET Reports : \E q \in [1..Cardinality(R) -> R] :
